@@ -6,6 +6,7 @@ set -u
 cd "$(dirname "$0")"
 export CARGO_NET_OFFLINE=true
 export VERIF_DIR="$PWD"
+export CARGO_TARGET_DIR="$PWD/mc/target"
 ID="${1:?usage: run.sh <id> <tier>}"
 TIER="${2:-${VERIF_TIER:-quick}}"
 
